@@ -7,10 +7,25 @@ import vlib, lrengine
 CGB = os.path.join(vlib.ROOT, "harness", "cgb")
 
 
+_LOCK = None
+
+
+def _lock():
+    """one check at a time may use this crate (its sources are rewritten per run): hold an exclusive lock
+    until the process exits"""
+    global _LOCK
+    if _LOCK is None:
+        import fcntl
+        os.makedirs(vlib.CACHE, exist_ok=True)
+        _LOCK = open(os.path.join(vlib.CACHE, "cgb.lock"), "w")
+        fcntl.flock(_LOCK, fcntl.LOCK_EX)
+
+
 def build(units):
     """units: list of dict(name, rs (path of generated .rs), parsers [start names]).
     Returns path of the binary.  The crate is rebuilt from scratch into its own target dir key so
     that stale modules never linger."""
+    _lock()
     gen = os.path.join(CGB, "src", "gen")
     shutil.rmtree(gen, ignore_errors=True)
     os.makedirs(gen)
